@@ -66,6 +66,10 @@ Record cfg := mkCfg {
   alias_disp_raw : bool;           (* Column.alias(n) remembers n as given *)
   str_disp_raw : bool;             (* a str argument of select is recorded as given (else: its identifier text) *)
   join_merges : bool;              (* join adds the right frame's display names (for names that are not left columns) *)
+  join_key_bare : bool;            (* join(on=[names]) looks the key up by its bare text (else by the quote-preserving name) *)
+  schema_key_spark : bool;         (* df.schema keys the map by the INPUT dialect's rendering of the reported bare name *)
+  orderby_identify : bool;         (* orderBy renders its keys with quoted identifiers before re-parsing them *)
+  groupby_unqualifies : bool;      (* groupBy drops the table qualifier of df[x] keys (no join open) *)
   v_columns_map : bool;            (* df.columns renames the select list through the map *)
   v_sql_map : bool;                (* the SQL of collect()/toPandas() carries the display names as case-sensitive aliases *)
   v_schema_map : bool;             (* df.schema looks reported names up in the map *)
@@ -202,7 +206,9 @@ Section Model.
     let kt := norm (attr v) in
     mem kt (map norm (base d)) || existsb (fun a => neqb (alower_name a) (alower_name kt)) (fields_raw d).
   Definition orderby_parses (d : df) (v : name) : bool :=
-    injoin d || snd (user_ident v) || negb (mem (norm (attr v)) kw_orderby).
+    orderby_identify c || injoin d || snd (user_ident v) || negb (mem (norm (attr v)) kw_orderby).
+  Definition join_keys_found (d : df) (keys : list name) : bool :=
+    forallb (fun k => mem (if join_key_bare c then text (ident k) else qp (ident k)) (base d)) keys.
 
   (** method bodies: self (after the wrapper) -> (self afterwards, result) ; None = the call raises *)
   Definition body (o : op) (d : df) : option (df * df) :=
@@ -256,7 +262,8 @@ Section Model.
         let g := fst (fst p) in
         (* a key written df[x] was bound to the CTE open when groupBy ran; if agg's own wrapper freezes once more, the
            qualified key points at a table that is no longer in the FROM: the engine raises *)
-        if snd p && existsb (fun a => match a with SItem _ => true | _ => false end) keys then None
+        if snd p && existsb (fun a => match a with SItem _ => true | _ => false end) keys
+           && negb (groupby_unqualifies c) then None
         else
           (* keys are Columns by then: what is recorded for them is col()'s display name *)
           let kvs := map (fun a => (qp (arg_item a), if col_disp_ident c then attr (arg_ref' a) else arg_ref' a)) keys
@@ -270,7 +277,7 @@ Section Model.
         let lcols := map renorm (sel d) in
         let rcols := map ident rnames in
         let kn := map (fun k => qp (ident k)) keys in
-        if forallb (fun k => mem k (base d)) kn then
+        if join_keys_found d keys then
           let names := kn ++ filter (fun n => negb (mem n kn)) (map qp (lcols ++ rcols)) in
           Some (d, mkDf (map ident names) (join_dmap d lcols rnames) (last d) (base d ++ map text rcols) true)
         else None
@@ -281,7 +288,8 @@ Section Model.
     | OOrderByItems vs =>
         (* the key is rendered table-qualified: it can only bind an input column of the FROM, never an alias of the
            open SELECT *)
-        if forallb (fun v => negb (mem (norm (attr v)) kw_orderby) && mem (norm (attr v)) (map norm (base d))) vs
+        if forallb (fun v => (orderby_identify c || negb (mem (norm (attr v)) kw_orderby))
+                             && mem (norm (attr v)) (map norm (base d))) vs
         then Some (d, d) else None
     | OJoinOn rnames _ _ =>
         let lcols := map renorm (sel d) in
@@ -353,7 +361,12 @@ Section Model.
   Definition pandas (d : df) : list name := fields_raw d.
   Definition fields (d : df) : list name :=
     if v_collect_case c then fields_raw d else map norm (fields_raw d).
+  (** the name df.schema looks up / falls back to, for the (normalised) name the engine reports *)
+  Definition schema_key (t : name) : name :=
+    if schema_key_spark c then (if qspark t then bt t else t) else requote t.
+  Definition schema_miss (t : name) : name := if schema_key_spark c then t else requote t.
   Definition schema (d : df) : list name :=
-    map (fun it => let k := requote (norm (text it)) in
-                   if v_schema_map c then match lookup k (dmap d) with Some v => v | None => k end else k) (sel d).
+    map (fun it => let t := norm (text it) in
+                   if v_schema_map c then match lookup (schema_key t) (dmap d) with Some v => v | None => schema_miss t end
+                   else schema_miss t) (sel d).
 End Model.
